@@ -588,7 +588,7 @@ def gen_value_program(cases):
 
     go.append("func main() {\n\tif p := pyx.Getenv(c.Str(\"C19_SKIP\")); p != nil {\n\t\tskip = int(c.Atoi(p))\n\t}")
     go += ["\t" + s for s in mainbody]
-    go.append('\tprintln("N count", vx.Enc(bvmod.Count))\n\tprintln("END")\n}')
+    go.append('\tprintln("N count", vx.Enc(bvmod.Count))\n\tpy.ImportModule(c.Str("vpk")) // canary: the import hook must report this one\n\tprintln("END")\n}')
     py.append("w('N count ' + enc(vmod.count)); w('END')")
     return "\n".join(go) + "\n", "\n".join(py) + "\n"
 
@@ -683,8 +683,11 @@ def run_protocol(exe_cmd, env, ncases, timeout):
         trailer = other
         if st == 0 and "END" in other:
             break
-        if last is None or last < skip or len(crashes) >= 12:
-            raise C.Undecided("value program ended abnormally outside a case (status %s):\n%s" % (st, so[-1500:]))
+        if last is None or last < skip:
+            crashes.append((None, st, so[-1500:]))          # died outside every case (start-up, between cases, exit)
+            break
+        if len(crashes) >= 12:
+            raise C.Undecided("value program crashed in more than 12 cases (status %s):\n%s" % (st, so[-1500:]))
         crashes.append((last, st, so[-600:]))
         skip = last + 1
         if skip >= ncases:
@@ -717,23 +720,45 @@ def part_values(chk, thorough, sd, cases, counts):
     cases[probe]["_exp"] = saved
     if not flagged:
         raise C.Undecided("negative control not flagged: the judge does not compare anything")
+    outside = [c for c in crashes if c[0] is None]
+    if outside:
+        chk.reject("values:died-outside-a-case", "the value program ended with status %s outside any case (interpreter start-up, module "
+                   "import, symbol loading or exit)" % outside[0][1], {"status": outside[0][1], "output_tail": outside[0][2]})
+        return
     crashed = {c[0] for c in crashes}
     bad = judge(cases, obs)
-    seen = set()
+    # one replay per failing case, but at most MAXREP of them: first one representative of every class
+    # (family, route, kind, what differs), then the remaining cases in case order
+    byclass = {}
     for i, what, detail in bad:
+        c = cases[i]
+        cls = "%s/%s/%s/%s" % (c["fam"], c.get("route", "static" if c.get("static") else ""), c.get("go", {}).get("k", ""), what)
+        byclass.setdefault(cls, []).append((i, what, detail))
+    order = [v[0] for _, v in sorted(byclass.items())] + [x for _, v in sorted(byclass.items()) for x in v[1:]]
+    MAXREP = 40
+    seen = set()
+    for i, what, detail in order:
         c = cases[i]
         key = case_key(c) + (":crash" if i in crashed else "")
         if key in seen:
+            continue
+        if len(seen) >= MAXREP and not chk.known.match(key):
             continue
         seen.add(key)
         if i in crashed:
             detail = "the program died in this case (%s); " % [x[1] for x in crashes if x[0] == i][0] + detail
         chk.reject(key, "%s: %s" % (what, detail), {"case": {k: v for k, v in c.items() if k != "_exp"}, "expected": c["_exp"],
                                                      "observed": obs.get(i), "program": "generated by vlib/c19.py gen_value_program"})
+    if bad:
+        with _LOCK:
+            chk.cov["value_mismatches_by_class"] = {k: len(v) for k, v in sorted(byclass.items())}
     if "N count i1" not in trailer:
         chk.reject("values:module-body-count", "vmod's body did not run exactly once: %r" % [t for t in trailer if t.startswith("N ")],
                    {"trailer": trailer[-5:]})
     imports = [t for t in trailer if t.startswith("I ")]
+    if "I vpk" not in imports:
+        raise C.Undecided("the import hook did not report the canary import: import requests cannot be observed")
+    imports.remove("I vpk")
     if sorted(imports) != ["I vmod", "I vpk.sub"]:
         chk.reject("values:imports", "import requests seen by the interpreter: %r, expected one for vmod and one for vpk.sub" % imports,
                    {"imports": imports})
@@ -781,6 +806,7 @@ def gen_shape_program(sh):
         imps = (['"c19prog/vx"', '"github.com/goplus/lib/py"'] if uses else []) + [BIND_IMPORT[b] for b in uses]
         if p == "main":
             imps += ['"c19prog/%s"' % PKGDIR[q] for q in sorted(sh["pkgs"]) if q != "main"]
+            imps += ['"github.com/goplus/lib/c"', '"github.com/goplus/lib/py"']
         elif p == "a" and sh["ab"] and "b" in sh["pkgs"]:
             imps.append('_ "c19prog/pb"')
         src = ["// generated by /verif/vlib/c19.py", "package " + pkgname, "", "import ("] + ["\t" + i for i in sorted(set(imps))] + [")", ""]
@@ -806,7 +832,7 @@ def gen_shape_program(sh):
                 if q in sh["pkgs"]:
                     src.append("\t%s.Run()" % PKGDIR[q])
             src += runbody
-            src.append('\tprintln("END")\n}')
+            src.append('\tpy.ImportModule(c.Str("vpk")) // canary: the import hook must report this one\n\tprintln("END")\n}')
             files["main.go"] = "\n".join(src) + "\n"
         else:
             src.append("func Run() {")
@@ -951,6 +977,11 @@ def part_imports(chk, thorough, sd):
         ev, problems = parse_shape_trace(so)
         replay = {"shape": {k: sh[k] for k in ("pkgs", "ab", "uses", "site")}, "output": so[-4000:], "events": ev,
                   "files": gen_shape_program(sh)}
+        if st == 0 and ev[-1:] != [["I", "vpk"]]:
+            raise C.Undecided("the import hook did not report the canary import of %s: import requests cannot be observed\n%s" % (key, so[-1500:]))
+        if st == 0:
+            ev = ev[:-1]
+            replay["events"] = ev
         if st != 0:
             chk.reject(key + ":crash", "the program ended with status %s (a module used before it was imported shows up as a crash)" % st, replay)
             continue
@@ -1019,7 +1050,9 @@ def check(chk):
             except Exception as e:           # let every part finish (and clean up) before the first failure is reported
                 errs.append(e)
         if errs:
-            raise errs[0]
+            if not chk.violations:
+                raise errs[0]
+            C.log("note: a part of the check could not be decided while another found violations: %s" % str(errs[0])[:500])
     chk.assumptions += [
         "platform linux/amd64: int, uint, uintptr, C long are 64 bit (Bits() in PyBridge.tla)",
         "harness-owned tables: float token -> IEEE bits, canonical text encoding enc() (python3 running the same calls validates both on every run)",
